@@ -87,8 +87,58 @@ def _find_nested(fn, name):
     return None
 
 
+_SLICES = None
+
+
+def slices():
+    """SLICES of contracts/config.py: 'module.func@tag' -> {'first': ..., 'last': ..., 'params': [...]}"""
+    global _SLICES
+    if _SLICES is None:
+        _SLICES = {}
+        path = os.path.join(os.path.dirname(os.path.dirname(os.path.abspath(__file__))), "contracts", "config.py")
+        try:
+            for n in ast.parse(open(path).read()).body:
+                if isinstance(n, ast.Assign) and n.targets[0].id == "SLICES":
+                    _SLICES = ast.literal_eval(n.value)
+        except (OSError, SyntaxError, ValueError):
+            pass
+    return _SLICES
+
+
+def find_slice(qualname):
+    """A contiguous run of top-level statements of a real function, extracted mechanically on every run: the
+    statements from the one whose source starts with `first` to the one whose source starts with `last` (each must
+    match exactly once). The names the slice reads become parameters (declared in `params`); everything before and
+    after the slice is dropped - the slice is verified for ARBITRARY values of its free names."""
+    spec = slices().get(qualname)
+    base = find_function(qualname.split("@")[0])
+    if spec is None or base is None:
+        return None
+    body = base.node.body
+    srcs = [ast.unparse(b) for b in body]
+    i0 = [i for i, t in enumerate(srcs) if t.startswith(spec["first"])]
+    i1 = [i for i, t in enumerate(srcs) if t.startswith(spec["last"])]
+    if len(i0) != 1 or len(i1) != 1 or i1[0] < i0[0]:
+        return None
+    stmts = list(body[i0[0]: i1[0] + 1])
+    if spec.get("result"):
+        # the value of one local after the slice is the slice's result
+        stmts.append(ast.Return(value=ast.Name(id=spec["result"], ctx=ast.Load())))
+    fn = ast.FunctionDef(name=base.node.name, args=ast.arguments(posonlyargs=[], args=[ast.arg(arg=a) for a in spec["params"]], kwonlyargs=[],
+                                                                 kw_defaults=[], defaults=[]),
+                         body=list(stmts), decorator_list=[], returns=None, type_comment=None)
+    real = body[i0[0]: i1[0] + 1]
+    fn.lineno, fn.col_offset = real[0].lineno, 0
+    fn.end_lineno, fn.end_col_offset = real[-1].end_lineno, real[-1].end_col_offset
+    ast.fix_missing_locations(fn)
+    fn.lineno, fn.end_lineno, fn.col_offset, fn.end_col_offset = real[0].lineno, real[-1].end_lineno, 0, real[-1].end_col_offset
+    return FuncInfo(qualname, base.module, fn, None, None)
+
+
 def find_function(qualname):
-    """'aldy.coverage.Coverage.basic_filter', 'aldy.sam.Sample._parse_read.bin_quality'."""
+    """'aldy.coverage.Coverage.basic_filter', 'aldy.sam.Sample._parse_read.bin_quality', slice 'aldy.genotype.genotype@tag'."""
+    if "@" in qualname:
+        return find_slice(qualname)
     parts = qualname.split(".")
     # longest prefix that is a module file
     for i in range(len(parts) - 1, 0, -1):
@@ -147,4 +197,5 @@ DROPPED = [
     "type annotations", "docstrings", "log.* calls (and f-strings that are only their arguments)",
     "Timing context managers (body kept)", "debug_info[...] writes into the process-wide debug store",
     "if debug: model.dump(...)",
+    "slices (qualname@tag): all statements of the function before and after the slice; free names of the slice are arbitrary parameters",
 ]
